@@ -140,6 +140,21 @@ def datetimeStar (c : List Comp) : R IsoT.Value :=
   | [.int y, .int m, .int d, .int hh, .int mm, .int ss, .int us, .tz o] => mk y m d hh mm ss us (some o)
   | _ => .error .TypeError
 
+/-- `date(*components)`: three ints -/
+def dateStar (c : List Comp) : R Int :=
+  match c with
+  | [.int y, .int m, .int d] => date y m d
+  | _ => .error .TypeError
+
+/-- `time(*components)`: four ints followed by `None` / a tzinfo; the value is the validated component list -/
+def timeStar (c : List Comp) : R (List Comp) :=
+  let ok (h m s us : Int) : Bool :=
+    decide (0 ≤ h ∧ h ≤ 23 ∧ 0 ≤ m ∧ m ≤ 59 ∧ 0 ≤ s ∧ s ≤ 59 ∧ 0 ≤ us ∧ us ≤ 999999)
+  match c with
+  | [.int h, .int m, .int s, .int us, .none] => if ok h m s us then .ok c else .error .ValueError
+  | [.int h, .int m, .int s, .int us, .tz _] => if ok h m s us then .ok c else .error .ValueError
+  | _ => .error .TypeError
+
 /-- `datetime + timedelta(days=n)` -/
 def dtAddDays (v : IsoT.Value) (n : Int) : R IsoT.Value :=
   match v.dt.addDays n with
